@@ -53,6 +53,7 @@ inline std::vector<PVal> paramMenu() {
     m.push_back({"s0", [](Param& p) { p.set(std::vector<std::string>() = {""}); }});
     m.push_back({"se", [](Param& p) { p.set(std::vector<std::string>() = {}); }});
     m.push_back({"i321", [](Param& p) { p.set(std::vector<int>() = {1, 2, 3, 4, 5, 6}, {3, 2, 1}); }});
+    m.push_back({"i9", [](Param& p) { p.set(std::vector<int>() = {-32768, 32767, 255, 256, 127, 128, -1, -128, -129}, {3, 3}); }});   // 8- and 16-bit boundaries
     m.push_back({"i11", [](Param& p) { p.set(std::vector<int>() = {-5}, {1, 1}); }});                       // one value, two dimensions
     m.push_back({"f111", [](Param& p) { p.set(std::vector<float>() = {6.5f}, {1, 1, 1}); }});
     m.push_back({"sctl", [](Param& p) { p.set(std::vector<std::string>() = {"tab\t", "cr\r\n", "x y", "\f"}); }});   // control white-space is content, only spaces are padding
@@ -157,6 +158,7 @@ inline bool applyDev(Shape& sh, const std::string& dev) {   // returns false if 
     if (dev == "pt_missing") { if (sh.pts.empty()) return false; sh.pts.pop_back(); return true; }
     if (dev == "pt_extra") { sh.pts.push_back("Z"); return true; }
     if (dev == "pt_renamed") { if (sh.pts.empty()) return false; sh.pts.back() = "Z"; return true; }
+    if (dev == "pt_renamed_mid") { if (sh.pts.size() < 3) return false; sh.pts[1] = "Z"; return true; }
     if (dev == "pt_renamed_first") { if (sh.pts.size() < 2) return false; sh.pts.front() = "Z"; return true; }
     if (dev == "addpoints") { if (!sh.pts.empty() || sh.nsub == 0) return false; sh.pts = {"Y", "Z"}; return true; }        // a frame that brings its own points to an object without any (POINT:USED == 0)
     if (dev == "addanalogs") { if (sh.nsub != 0 || !sh.chans.empty() || sh.pts.empty()) return false; sh.chans = {"y"}; sh.nsub = 1; return true; }
